@@ -102,6 +102,20 @@ FamD(tmpls, datas) ==
                   [Unset EXCEPT !["iA2"] = ri, !["e1"] = rq, !["e2"] = rq], X, {},
                   ts \o "." \o ds \o "." \o ReqCode(ri) \o ReqCode(rq)))
 
+\* R: require-template-schema-exists at every level x the BUILT-IN templates.  The flag is about schemas that have to
+\*    be fetched; a built-in template always has its schema, so its data is validated whatever the flag says
+\*    ("validated against ... the built-in schema for built-in templates", no qualification): Schema!FileVerdict does
+\*    not look at Require for built-ins.
+DataR == {{KsRoot}, {<<"root", "zz", "str">>}, {<<"pkg", "kb", "str">>}, {KsRoot, <<"iA1", "zz", "str">>},
+          {<<"iA2", "ks", "bool">>}, {<<"e2", "zz", "str">>}, {<<"e1", "kb", "strT">>, <<"root", "kb", "bool">>}}
+FamR(tmpls, rootreqs, pkgreqs, a1reqs, a2reqs) ==
+  \E t \in tmpls, rr \in rootreqs, rp \in pkgreqs, ra \in a1reqs, rb \in a2reqs, X \in DataR :
+    InitWith([Case("R", t, Loc("absent", "absent", "absent"), Unset,
+                   [Unset EXCEPT !["root"] = rr, !["pkg"] = rp, !["iA1"] = ra, !["iA2"] = rb], {}, {},
+                   ReqCode(rr) \o ReqCode(rp) \o ReqCode(ra) \o ReqCode(rb) \o "." \o IdOf(X \ {<<"e1", "kb", "strT">>})
+                   \o (IF <<"e1", "kb", "strT">> \in X THEN "T" ELSE ""))
+              EXCEPT !.data = DataOf(X)])
+
 \* L: look-alikes -- for a typed key, a conforming value at one level and, at ANOTHER level, a value that differs
 \*    from it in JSON type only (true vs "true", 1 vs "1"), optionally with a second conforming value at a third
 \*    level (a sibling entry / interface of the same file, or a level above).  Closed schema, nothing required, so
@@ -133,6 +147,8 @@ InitQuick ==
   \/ FamC({"file", "http"}, DataC)
   \/ FamD({"file"}, DataB)
   \/ FamL({"testify", "matryer", "file"})
+  \/ FamR({"testify"}, Reqs, Reqs, Reqs, Reqs)
+  \/ FamR({"matryer"}, Reqs, {"unset"}, {"unset", "false"}, {"unset", "false"})
   \/ FamE({"testify", "file"})
 
 InitThorough ==
@@ -141,6 +157,7 @@ InitThorough ==
   \/ FamC({"file", "http"}, DataC)
   \/ FamD({"file", "http"}, DataB)
   \/ FamL({"testify", "matryer", "file", "http"})
+  \/ FamR({"testify", "matryer"}, Reqs, Reqs, Reqs, Reqs)
   \/ FamE({"testify", "matryer", "file", "http"})
 
 \* the schema tables, for the harness (which writes the custom schemas and compares the built-in ones with the tree)
